@@ -373,6 +373,12 @@ func init() {
 		if err != nil {
 			evid.Inconclusive("trace validation: %v", err)
 		}
+		// every DATA transition of the session model (backend reads all / part / nothing,
+		// accepts / refuses / panics before or after reading) with three commands
+		// pipelined behind the closing ones
+		dst := tourSome(run, dumpEdges("MC_Session", "Dump_Session.cfg"), func(e *sessrep.Edge) bool { return e.Lbl.Cmd.C == "DATA" })
+		fmt.Printf("C02: %d/%d DATA transitions of the session model replayed\n", dst.Covered, dst.Edges)
+		nconv += dst.Convs
 		// the peer falls silent inside the message for longer than ReadTimeout (MC_Idle):
 		// what arrives afterwards is never executed
 		imc := modelCheck("MC_Idle", "MC_Idle.cfg", 8)
